@@ -622,7 +622,8 @@ def validate_many(names, sdir, wd, shard=6, par=10):
 # panic sites -> (finding tag, property that owns it)
 ABORT_SITES = [
     (re.compile(r"net/http\.rs:141"), "S14", ("C14", "C05")),
-    (re.compile(r"wt_client\.rs:(229|251|277|286)"), "S15", ("C05",)),
+    (re.compile(r"wt_client\.rs:\d+"), "S15p", ("C05",)),
+    (re.compile(r"retrier\.rs:48\d:\d+"), "S21", ("C05",)),
 ]
 SECONDARY = re.compile(r"(main\.rs|retrier\.rs):\d+")   # lock().unwrap() on the poisoned mutex: consequence, not cause
 
@@ -669,26 +670,44 @@ FINDINGS = {
             "what": "an appointment response whose signature cannot be decoded panics (recover_pk(..).unwrap()): the "
                     "commitment_revocation hook never answers and the remaining towers are skipped; in the retrier "
                     "the task dies and the tower stays 'being retried' for ever"},
-    "S15": {"props": ("C05",), "site": "watchtower-plugin/src/wt_client.rs::add_appointment_receipt/add_pending_appointment/add_invalid_appointment",
-            "scenario": "second-record-for-tower-and-appointment",
-            "explains": {"dev:S15", "abort:S15", "ExactlyOne", "NeverLost", "Survives", "*"},
-            "what": "a second record for a (tower, appointment) that already has one (duplicate notification, "
-                    "re-delivery after a kill between 'add receipt' and 'remove pending', second bad signature) fails "
-                    "the insert, unwrap() panics with the state mutex held and every later handler panics too"},
+    "S15": {"props": ("C05",), "site": "watchtower-plugin/src/wt_client.rs::add_appointment_receipt/add_invalid_appointment",
+            "scenario": "second-final-record-for-tower-and-appointment",
+            "explains": {"dev:S15", "ExactlyOne"},
+            "what": "an appointment that already has a final record for a tower (rejected -> invalid, or accepted) and is "
+                    "notified / delivered again with the other outcome gets a second final record: it is listed as "
+                    "accepted AND invalid for that tower"},
+    "S15p": {"props": ("C05",), "site": "watchtower-plugin/src/wt_client.rs::add_*_appointment*",
+             "scenario": "second-record-for-tower-and-appointment",
+             "explains": {"dev:S15p", "abort:S15p", "ExactlyOne", "NeverLost", "Survives", "*"},
+             "what": "(repaired by 6ac4a92) inserting a row that exists panicked with the state mutex held"},
+    "S21": {"props": ("C05",), "site": "watchtower-plugin/src/retrier.rs::Retrier::run (load_appointment(locator).unwrap())",
+            "scenario": "revocation-notified-again-while-the-retrier-delivers-it",
+            "explains": {"dev:S21", "abort:S21", "NeverLost", "Survives", "*"},
+            "what": "a revocation notified again while the retrier is delivering it is queued for the retrier once more; "
+                    "when the manager hands it over after the delivery, the retrier looks for an appointment that is not "
+                    "stored any more and load_appointment(..).unwrap() panics with the state mutex held: every later "
+                    "handler panics too (hook never answers, nothing is recorded any more)"},
     "S18": {"props": ("C14",), "site": "watchtower-plugin/src/wt_client.rs::set_tower_status (callers: Retrier::start, on_commitment_revocation)",
             "scenario": "status-of-misbehaving-tower-overwritten",
             "explains": {"dev:S18", "Misbehaving", "BadSig", "BadSig.request_to_misbehaving_tower"},
-            "what": "a handler / retrier that read the tower status before it was flagged misbehaving overwrites "
-                    "'misbehaving' (temporary_unreachable, subscription_error, reachable) and appointments are sent to "
-                    "the tower again although its misbehaviour proof is stored"},
+            "what": "a retrier is started (or goes on) for a tower that has been flagged misbehaving meanwhile - a handler "
+                    "that read the status earlier queued data for it: the appointment is sent to the tower although its "
+                    "misbehaviour proof is stored (the status itself is no longer overwritten since 0773eb6)"},
     "S19": {"props": ("C13",), "site": "watchtower-plugin/src/main.rs::on_commitment_revocation + retrier.rs::RetryManager::manage_retry",
             "scenario": "revocation-between-idle-wake-and-start",
             "explains": {"dev:S19", "Delivered.not_within_bound"},
             "what": "a revocation arriving after an idle retrier was woken (pending data reloaded, retrier no longer "
                     "registered as idle) but before it is started (tower still shown unreachable) is stored as pending "
                     "and not passed to the retrier: the tower ends up 'reachable' with the appointment pending for ever"},
+    "S20": {"props": ("C13",), "site": "watchtower-plugin/src/main.rs::register",
+            "scenario": "registertower-refused-for-known-tower",
+            "explains": {"dev:S20", "Delivered.not_within_bound"},
+            "what": "registertower (likewise getsubscriptioninfo / getappointment) against a known tower that refuses the "
+                    "connection flags it 'temporary unreachable' without telling the retry manager: with nothing pending "
+                    "nobody ever flags it reachable again, it is shown temporarily unreachable although it is back (until "
+                    "the next revocation is delivered through a retrier)"},
 }
-ORDER = ["S15", "S14", "S12", "S13", "S18", "S19"]
+ORDER = ["S15p", "S21", "S14", "S15", "S12", "S13", "S18", "S19", "S20"]
 
 
 def classify(pid, tags):
@@ -717,7 +736,7 @@ def classify(pid, tags):
                 if rx.search(what):
                     fid = f
             if fid is None:
-                if SECONDARY.search(what) and ("S15" in devs or "S14" in devs):
+                if SECONDARY.search(what) and (devs & {"S15p", "S14", "S21"}):
                     continue        # lock().unwrap() on the poisoned mutex: consequence of S15
                 if pid == "C14":
                     out.append((None, "abort:" + what, "panic at " + what, ln))
@@ -856,13 +875,11 @@ def design_level(pid, tier, wd, stats):
             raise ToolError("the intended design (DEVIATIONS = {}) violates %s in MC_Client/%s: the specification is wrong"
                             % (r["violated"], name))
     if tier == "thorough":
-        for fid in ORDER:
-            if pid not in FINDINGS[fid]["props"]:
-                continue
-            live = pid == "C13" and fid in ("S19", "S14")
-            consts = mc_consts(1, 2 if live or fid == "S18" else 1, DEVIATIONS='{"%s"}' % fid)
+        for fid, devset, live, extra in VACUITY[pid]:
+            consts = mc_consts(1, 2 if live or fid.startswith("S18") else 1, DEVIATIONS=devset)
             if live:
                 consts.update(MaxNotify=1, RegKinds='{"garbage"}')
+            consts.update(extra)
             r = run_tlc_cfg(mdir, "deviation_" + fid, consts, None if live else invs, ["Delivered"] if live else None,
                             "LiveSpec" if live else "Spec")
             r["expected_counterexample"] = True
@@ -871,6 +888,19 @@ def design_level(pid, tier, wd, stats):
             if r["ok"]:
                 raise ToolError("deviation %s switched on but TLC finds no counterexample to %s: the invariants are vacuous"
                                 % (fid, pid))
+
+
+# (deviation, DEVIATIONS, liveness?, extra constants): repaired deviations stay here - they keep the invariants honest
+VACUITY = {
+    "C05": [("S12", '{"S12"}', False, {}), ("S14", '{"S14"}', False, {}), ("S15", '{"S15"}', False, {}),
+            ("S15p", '{"S15p"}', False, {}), ("S21", '{"S21"}', False, {})],
+    "C13": [("S13", '{"S13"}', False, {}), ("S14", '{"S14"}', True, {}), ("S19", '{"S19"}', True, {}),
+            # the user's registertower calls are part of the environment here; no renewals by the retrier (two renewals
+            # in flight at once are the tower's problem: the second receipt does not extend the first)
+            ("S20", '{"S20"}', True, {"MaxReg": 1, "Locators": '{"l1"}', "MaxKill": 0, "MaxRetry": 0, "RegKinds": "{}",
+                                      "AddKinds": '{"reject", "garbage"}'})],
+    "C14": [("S14", '{"S14"}', False, {}), ("S18", '{"S18"}', False, {}), ("S18o", '{"S18", "S18o"}', False, {})],
+}
 
 
 # ---------------------------------------------------------------------------------------------------
@@ -898,12 +928,28 @@ def regression_scripts():
     s = Sc("fix-S15-pending", 1, fam="regression", covers=["S15"])
     s.regall().down("t1").notify("l1").notify("l1").probe().up("t1").delivered("t1").probe()
     out.append(s.done())
+    # S15 (what is left of it): the same revocation answered "rejected" once and "accepted" the other time
+    for a, b in (("reject", "accept"), ("accept", "reject")):
+        s = Sc("fix-S15-%s-%s" % (a, b), 1, fam="regression", covers=["S15"])
+        s.regall().mode("t1", dict(ADD_CLASS[a][0])).notify("l1").mode("t1", dict(ADD_CLASS[b][0])).notify("l1").probe()
+        s.mode("t1", ACCEPT).notify("l2").probe()
+        out.append(s.done())
+    # S21: the revocation is notified again while the retrier's request for it is in flight
+    s = Sc("fix-S21", 1, fam="regression", covers=["S21"])
+    s.regall().down("t1").notify("l1").mode("t1", {"k": "accept", "hold": True}).up("t1")
+    s.step(op="wait_held", t="t1", timeout_ms=5000).notify("l1").mode("t1", ACCEPT).step(op="release", t="t1")
+    s.sleep(2500).probe().notify("l2").delivered("t1").probe()
+    out.append(s.done())
     # S18: two handlers in flight; the tower answers one with a subscription error and the other with a bad signature
     s = Sc("fix-S18", 1, fam="regression", covers=["S18"])
     s.regall().mode("t1", {"k": "accept", "hold": True}).notify("l1", wait=False).notify("l2", wait=False)
     s.step(op="wait_req", t="t1", count=3, arrival=True, timeout_ms=4000)
     s.step(op="release", t="t1", beh={"k": "sub_error"}).step(op="release", t="t1", beh={"k": "badsig"})
     s.mode("t1", ACCEPT).mode("t1", ACCEPT, "reg").wait_for("l1").wait_for("l2").sleep(3500).probe()
+    out.append(s.done())
+    # S20: renewing the registration while the tower is away
+    s = Sc("fix-S20", 1, fam="regression", covers=["S20"])
+    s.regall().notify("l1").down("t1").reg("t1").up("t1").sleep(deliver_bound_ms() + 800).probe()
     out.append(s.done())
     # S19: revocation in the second between the automatic wake-up of an idle retrier and its start
     for off in (2600, 2900, 3200):
